@@ -205,6 +205,11 @@ func propC20(w *World, r *Report) {
 			got = ci.Stores[i].String()
 		}
 		switch leaf {
+		case fTime, fEntry:
+			// a fresh limiter has printed nothing: its "last print" is the zero time and the empty text, so whatever
+			// comes first is printed (a constructor that stamps the time would swallow a first message equal to the
+			// remembered text for a whole interval)
+			r.Check(got == "<unset>", "G5", "constructor leaves the last-print memory ("+st.Field(i).Name()+") at its zero value", w.Pos(ctor.Pos()), got)
 		case fInterval:
 			r.Check(got == "param:time.Duration" && !ci.Mutable[i], "G5", "constructor stores the interval parameter (immutable)", w.Pos(ctor.Pos()), got)
 		case fClock:
